@@ -25,6 +25,8 @@ class Recorder:
         self.sent.append((bytes(data), addr))
 
     def recvfrom(self, n):
+        if not self.inbox:
+            raise BlockingIOError(11, "Resource temporarily unavailable")       # a non-blocking socket with nothing pending
         data, src = self.inbox.pop(0)
         return data[:n], src
 
